@@ -122,22 +122,22 @@ Definition calc_segmentation (caret : nat) (sg : segmentation) : segmentation * 
   (sg3, ok).
 
 (** ---- ConcreteEngine::TranslateSegments ---- *)
-Definition translate_one (inp : bytes) (g : segment) : segment * bool :=
+Definition translate_one (opts : list (bytes * bool)) (inp : bytes) (g : segment) : segment * bool :=
   if status_geb (s_status g) SGuess then (g, true)
   else
     let (s, ok) := substr_se inp (s_start g) (s_end g) in
     (mkSeg SGuess (s_start g) (s_end g) (s_length g) (s_tags g)
-           (Some (translate s (seg_info g))) 0%N (s_prompt g), ok).
+           (Some (translate s (seg_info opts g))) 0%N (s_prompt g), ok).
 
-Fixpoint translate_list (inp : bytes) (l : list segment) : list segment * bool :=
+Fixpoint translate_list (opts : list (bytes * bool)) (inp : bytes) (l : list segment) : list segment * bool :=
   match l with
   | [] => ([], true)
-  | g :: r => let (g', ok1) := translate_one inp g in
-              let (r', ok2) := translate_list inp r in (g' :: r', ok1 && ok2)
+  | g :: r => let (g', ok1) := translate_one opts inp g in
+              let (r', ok2) := translate_list opts inp r in (g' :: r', ok1 && ok2)
   end.
 
-Definition translate_segs (sg : segmentation) : segmentation * bool :=
-  let (l, ok) := translate_list (sg_input sg) (sg_segs sg) in (sg_with_segs sg l, ok).
+Definition translate_segs (opts : list (bytes * bool)) (sg : segmentation) : segmentation * bool :=
+  let (l, ok) := translate_list opts (sg_input sg) (sg_segs sg) in (sg_with_segs sg l, ok).
 
 (** ---- ConcreteEngine::Compose ---- *)
 Definition compose (c : context) : context :=
@@ -146,7 +146,7 @@ Definition compose (c : context) : context :=
   let sg := if (cx_caret c <? length (cx_input c)) && (cx_caret c =? confirmed_pos sg)
             then reset_input sg (cx_input c) else sg in
   let (sg1, okf) := calc_segmentation (cx_caret c) sg in
-  let (sg2, oks) := translate_segs sg1 in
+  let (sg2, oks) := translate_segs (cx_opts c) sg1 in
   ctx_check (ctx_check (ctx_with_comp c sg2) okf ErrFuel) oks ErrSubstr.
 
 (** ---- Context members that end in update_notifier_(this) ---- *)
